@@ -154,7 +154,7 @@ def gen_worker(args):
 def correspondence(res):
     from props import c02
     W = 14
-    n = 130 if res.tier == "quick" else 4000
+    n = 130 if res.tier == "quick" else 1040
     terms, infos = c02.parallel(res, gen_worker, [(res.seed * 1000 + w, max(1, n // W)) for w in range(W)])
     codes = common.run_case_codes("C13", "eval", HEADER, terms, "c13_eval", chunk=25, ctype=CT)
     res.coverage["rule"] = ("random grammars (str+regex, bytes+bits) x member / near-miss words of up to 7 units x ALL compositions of the word into "
